@@ -711,3 +711,60 @@ Example C01_tr_ec_read_runs :
                        [VInt 8; VInt (Z.of_nat G_rdfail)]).
 Proof. vm_compute. split; reflexivity. Qed.
 End C01_translated_read_cmd.
+
+(* ------------------------------------------------------------------------------------------ *)
+(* THE LOADING PART OF `:e file` IS THE C TEXT (coq/TrEditLoad.v): the statements
+     fd = open(ex_path(), O_RDONLY); if (fd >= 0) { rd = lbuf_rd(xb, fd, 0, lbuf_len(xb)); close(fd); snprintf(msg, ..); if (rd) ex_show("read failed"); else ex_show(msg); }
+   cut out of the translated ec_edit (tools/c2clite.d/87_quit.list; coq/TrQuit.v proves the guard in front of them), followed by
+   lbuf_saved(xb, path[0] != '\0') (C01_tr_ee_load_shape says that these are the statements; lbuf_saved itself: Properties_C02.v).
+   C01_tr_ee_load_ok: after a successful open, lbuf_rd is called with (xb, fd, 0, lbuf_len(xb)) -- the file REPLACES the whole buffer --,
+   the descriptor is closed once, the message is built from ex_path() and the new lbuf_len(xb), and "read failed" is shown instead iff
+   lbuf_rd returned non-zero (by C01_tr_lbuf_rd the buffer is then untouched).  C01_tr_ee_load_noopen: a failing open reads nothing. *)
+From NV Require TrEditLoad.
+Section C01_translated_edit_load.
+Import CLite CLiteProps GenCFuncs CLiteExt TrLbufBase TrReadCmd TrEditLoad.
+Local Open Scope Z_scope.
+
+Theorem C01_tr_ee_load_shape :
+  ee_open = SExpr (ESetLocal 7 (ECall X_open [ECall F_ex_path []; EConst 0])) /\
+  ee_if = SIf (EBin OGe I32 (ELocal 7) (EConst 0))
+            (SSeq (SExpr (ESetLocal 8 (ECall X_lbuf_rd [ECall F_ex_lbuf []; ELocal 7; EConst 0; ECall F_lbuf_len [ECall F_ex_lbuf []]])))
+               (SSeq (SExpr (ECall X_close [ELocal 7]))
+                  (SSeq (SExpr (ECall X_snprintf [ELocal 5; EConst 128; EGlob G_rdfmt; ECall F_ex_path []; ECall F_lbuf_len [ECall F_ex_lbuf []]]))
+                     (SIf (ELocal 8) (SExpr (ECall X_ex_show [EGlob G_rdfail])) (SExpr (ECall X_ex_show [ELocal 5]))))))
+            SSkip /\
+  ee_saved = SExpr (ECall F_lbuf_saved [ECall F_ex_lbuf []; EBin ONe I32 (ECast I32 (ELoad (Some I8) (EPtrAdd 1 (ELocal 6) (EConst 0)))) (EConst 0)]).
+Proof. exact ee_load_shape. Qed.
+Print Assumptions C01_tr_ee_load_shape.
+
+Theorem C01_tr_ee_load_noopen : forall ext d fuel loc cmd arg txt pls path pmsg pa po (M : mem) fd0 rd0 fd mD f,
+  path_at pa po M -> fd < 0 -> ext X_open [VPtr pa po; VInt 0] M = Ok (VInt fd, mD) ->
+  exec (callx ext cprog fuel (S (S d))) f ee_load (ee_st loc cmd arg txt pls path pmsg fd0 rd0 M)
+  = ONormal (ee_st loc cmd arg txt pls path pmsg (VInt fd) rd0 mD).
+Proof. exact ee_load_noopen. Qed.
+Print Assumptions C01_tr_ee_load_noopen.
+
+Theorem C01_tr_ee_load_ok : forall ext d fuel loc cmd arg txt pls path pmsg bl pa po (M : mem) fd0 rd0 fd mD len r mE u mF len1 u2 mG u3 mH f,
+  path_at pa po M -> 0 <= fd -> ext X_open [VPtr pa po; VInt 0] M = Ok (VInt fd, mD) ->
+  xb_at bl mD -> len_at bl mD len ->
+  ext X_lbuf_rd [VPtr bl 0; VInt fd; VInt 0; VInt len] mD = Ok (VInt r, mE) ->
+  ext X_close [VInt fd] mE = Ok (u, mF) ->
+  path_at pa po mF -> xb_at bl mF -> len_at bl mF len1 ->
+  ext X_snprintf [VPtr pmsg 0; VInt 128; VPtr G_rdfmt 0; VPtr pa po; VInt len1] mF = Ok (u2, mG) ->
+  ext X_ex_show [if r =? 0 then VPtr pmsg 0 else VPtr G_rdfail 0] mG = Ok (u3, mH) ->
+  exec (callx ext cprog fuel (S (S d))) f ee_load (ee_st loc cmd arg txt pls path pmsg fd0 rd0 M)
+  = ONormal (ee_st loc cmd arg txt pls path pmsg (VInt fd) (VInt r) mH).
+Proof. exact ee_load_ok. Qed.
+Print Assumptions C01_tr_ee_load_ok.
+
+(* the fragment RUNS (ex_editload: the memory of C01_tr_ec_read_runs with bufs[0].path = "f"; lbuf_rd is the translated one):
+   fd, rd, the read log, the edit log *)
+Example C01_tr_ee_load_runs :
+  ex_editload [IoReadDefs.RChunk [97; 98; 10; 99]%N; IoReadDefs.RChunk [100; 10]%N; IoReadDefs.REof]
+  = Some (VInt 3, VInt 0, TrRead.enc_rlog [TrRead.EvRead 3 1024 4; TrRead.EvRead 3 1024 2; TrRead.EvRead 3 1024 0],
+          (* lbuf_edit(xb, "ab\ncd\n", 0, 2): both lines of the buffer replaced; then the message block shown *)
+          [VInt 9; VInt 0; VInt 2; VInt 97; VInt 98; VInt 10; VInt 99; VInt 100; VInt 10; VInt 8; VInt (Z.of_nat (ex_L + 6))]) /\
+  ex_editload [IoReadDefs.RChunk [97; 98; 10; 99]%N; IoReadDefs.RErr]
+  = Some (VInt 3, VInt 1, TrRead.enc_rlog [TrRead.EvRead 3 1024 4; TrRead.EvRead 3 1024 (-1)], [VInt 8; VInt (Z.of_nat G_rdfail)]).
+Proof. vm_compute. split; reflexivity. Qed.
+End C01_translated_edit_load.
